@@ -967,7 +967,7 @@ fn pool_part(rep: &mut Report, root: &Path) {
         }
         let mut stack: Vec<Vec<usize>> = vec![vec![]];
         let (mut n, mut traces, mut outs) = (0u64, BTreeSet::new(), BTreeSet::new());
-        let cap: u64 = if is_thorough() { 2_000_000 } else { 60_000 };
+        let cap: u64 = if is_thorough() { 300_000 } else { 60_000 };
         while let Some(prefix) = stack.pop() {
             if n >= cap {
                 rep.caps_hit.push(format!("worker-pool world '{}': schedule cap {} reached (DFS order; the covered part is a prefix-closed subtree)", name, cap));
